@@ -53,6 +53,14 @@ condition is needed) and every source without `<`:
                                behind the inline stage are `prettify` and `unescape` only (footnotes, abbr, attr_list,
                                toc off): `convertXBig = err` only if the `<div>` strip fails.
 
+8. `C02_convertXBig_total_fenced` — 5. WITH fenced_code, for sources without `&` (then `HtmlBlockPreprocessor` leaves the
+                               text with the raw-HTML placeholders of the fenced blocks alone) and `tab_length ≥ 1`:
+                               every placeholder is a block of its own (`C02_fenced_preprocessor`), so it becomes a
+                               paragraph of its own and reaches no atomic text, attribute or table
+                               (`C02_block_stage_fenced`, an instance of worker fc2's generic block-stage invariant for
+                               ARBITRARY text), the tree holds no inline placeholder, and `RawHtmlPostprocessor`
+                               terminates with the `<pre…` entries on every text (`C02_rawHtml_total_entries`).
+
 Only property statements live here; proofs in `MdVerif/Lemmas/C02Big.lean`, `MdVerif/Lemmas/C02Big{Str,Pat,Run,Tree}.lean`
 (these four mirror `Lemmas/AmpFull*.lean` of C05 for the stronger invariant), `MdVerif/Lemmas/C02BigX.lean`,
 `MdVerif/Lemmas/C02BigXAll.lean` and `MdVerif/Lemmas/C02BigN{Pot,Em,Pat,HI,PP,Run}.lean` (`Pot`, `Em`, `Pat`, `PP` are copies of
@@ -62,6 +70,7 @@ Only property statements live here; proofs in `MdVerif/Lemmas/C02Big.lean`, `MdV
 import MdVerif.Lemmas.C02BigTree
 import MdVerif.Lemmas.C02BigXAll
 import MdVerif.Lemmas.C02BigXErr
+import MdVerif.Lemmas.C02BigFAll
 
 namespace MdVerif.C02Big
 open Py Block Inline InlineLocal NoCtl Vocab2 MdVerif.C08 MdVerif.C08Src
@@ -382,6 +391,60 @@ theorem C02_convertXBig_err_only_strip (x : Exts) (hf : x.fencedCode = false) (h
 
 example : ({ tables := true, admonition := true, defList := true, saneLists := true, nl2br := true, wikilinks := true } : Exts).fencedCode
     = false := rfl
+
+/-! ### 8. fenced_code -/
+
+/-- **`FencedBlockPreprocessor.run` on any text without STX/ETX** (what `NormalizeWhitespace` hands on; fc2's
+    `C10X_fenced_preprocessor` without the character domain of C10): every STX/ETX of the result belongs to a raw-HTML
+    placeholder `STX wzxhzdk:n ETX`, `n` below the length of the stash, that is a BLOCK of its own (`OwnBlock`); no
+    stash entry holds STX/ETX; a text without `&` stays without `&`. -/
+theorem C02_fenced_preprocessor {t t' : Str} {stash : List Str} (h : Fenced.fencedRunA t = .ok t' stash)
+    (hn : NoCtl t) (ha : '&' ∉ t) :
+    (NoCtlF.OwnBlock stash.length t' ∧ '&' ∉ t') ∧ ∀ e ∈ stash, NoCtl e :=
+  NoCtlXF.XT.fencedRunA_own1 h hn ha
+
+/-- **The extended block parser on ANY text in which every placeholder is a block of its own** (every combination of
+    admonition, def_list, footnotes, abbr, sane_lists, tables; `tab_length ≥ 1`): every element has a literal tag,
+    attributes without STX/ETX, an atomic text only on `code` and without STX/ETX, and in its tail and non-atomic text
+    no STX is followed by `k` — the placeholders are `STX w…` —; the log has no STX/ETX. -/
+theorem C02_block_stage_fenced (h : Nat) (tables : Bool) (xc : BlockExt.XCfg) {tab : Nat} (htab : 0 < tab) {text : Str}
+    (ho : NoCtlF.OwnBlock h text) {root : Node} {log : Block.Refs}
+    (hr : BlockExt.parseDocumentXT tables xc tab text = some (root, log)) :
+    root.Forall (BlkX.XInv Blk.okc Blk.okc (NoPair NoCtl.STX 'k')) ∧ BlkX.LogC Blk.okc (Blk.AllC Blk.okc) log :=
+  letI : NoCtlF.HtmlBound := ⟨h, false⟩
+  NoCtlXF.XT.block_stage_own_q tables xc htab ho hr
+
+/-- **`RawHtmlPostprocessor.run` terminates on EVERY text** when the stash entries hold no STX and begin with `&` or
+    `<` (`EntryLt`: the entries of the entity pattern and of fenced_code): one substitution pass leaves no live
+    placeholder, the second changes nothing, the model's fuel `len stash + 3` suffices. -/
+theorem C02_rawHtml_total_entries (bl stash : List Str) (he : ∀ e ∈ stash, EntryLt e) (text : Str) :
+    ∃ out, Post.rawHtml bl stash (Post.rawHtmlFuel stash) text = some out :=
+  rawHtml_totalL he text
+
+example : EntryLt "<pre><code>x\n</code></pre>".toList ∧ EntryLt "&amp;".toList ∧ ¬ EntryLt ['w', 'z'] := by
+  refine ⟨⟨by decide, _, _, rfl, .inr rfl⟩, ⟨by decide, _, _, rfl, .inl rfl⟩, ?_⟩
+  rintro ⟨_, c, r, h, hc⟩
+  simp only [List.cons.injEq] at h
+  rcases hc with rfl | rfl <;> exact absurd h.1 (by decide)
+
+/-- **C02, termination of the extension pipeline on the sufficient fuel, with fenced_code**: every flag set without
+    wikilinks (tables, admonition, def_list, abbr, sane_lists, attr_list, toc, footnotes, nl2br on or off), every
+    configuration with `tab_length ≥ 1`, every source without `&`: `convertXBig` never answers `oof`. -/
+theorem C02_convertXBig_total_fenced (x : Exts) (cfg : Pipeline.Cfg) (src : Str) (hw : x.wikilinks = false)
+    (hf : x.fencedCode = true) (ha : '&' ∉ src) (htab : 0 < cfg.tab) : convertXBig x cfg src ≠ .oof :=
+  convertXBig_ne_oof_fenced src hw hf ha htab
+
+/-- two fenced blocks (one with a language, backticks and emphasis markers in the code; one with `~~~` holding a
+    quote marker), a footnote, a heading with toc, nl2br -/
+def xFc : Exts := { xFn with attrList := false, fencedCode := true }
+def srcFc : Str := "# T\n\na[^1] *b*\n\n```py\nx = `1` *a*\n```\ntext\n~~~\n> q\n~~~\n\n[^1]: note\n".toList
+
+example : xFc.wikilinks = false ∧ xFc.fencedCode = true ∧ '&' ∉ srcFc ∧ 0 < ({} : Pipeline.Cfg).tab := by decide
+
+/-- 390 characters, the output of the implementation -/
+example : (match convertXBig xFc {} srcFc, convertX xFc {} srcFc with
+    | .ok a, .ok b => decide (a = b) && decide (a.length = 390)
+    | _, _ => false) = true := by decide +kernel
 
 end Ext
 
